@@ -277,7 +277,7 @@ PROPS = {
         "technique": "Lean 4 proof (conservation laws by induction over histories and attempt lists) + differential correspondence of Prometheus gatherer deltas",
         "ref": "§5 C18",
         "proofs": ["Bmc.Proofs.C18"],
-        "scenarios": ["hist", "sendm"],
+        "scenarios": ["hist", "sendm", "hsm"],
         "rule": "sendm: every in-session reply script of length 1..2 (thorough 3) over the 21-letter alphabet of C10, ending in a lost reply or in the context expiring while the last reply is handled; retries / attempts / failures / responses-per-code deltas of the real gatherer vs the model driven by attOf on the reply bytes. hist: 150 (thorough 3000) random histories of 5..60 events over {dial via hook, failing real dial, close connection, session open ok / wrong password, close session with 6 scripts, in-session and session-less commands of three names (one whose response body never decodes) with random outcome scripts of 0..5 letters over {F,E,B,T,X,G,L}}. Non-trivial = history with at least one failure and one retried command; distinct = distinct op line.",
         "modelled": ["every Inc()/Dec() of connection.go, session.go, v2sessionless.go, v2session.go, v2session_new.go, bmc.go, sessionless_transport.go as a step function"],
         "assumptions": ["Close called twice on one session/connection is outside the property (matched opens and closes)"],
